@@ -97,6 +97,7 @@ CONSTANTS
  HierDepths = {tla({2, 3})}
  HierMixins = {tla(set(hier[2]))}
  HierTops = {tla({"sub", "base_then_sub", "sub_then_base"})}
+ Wheres = {tla({"module", "nested", "local"})}
  Families = {tla({fam})}
 INVARIANT Laws
 CHECK_DEADLOCK FALSE
@@ -137,9 +138,10 @@ def generate(chk: Check) -> dict[str, Any]:
             ("plain", "fold", 3, ["list", "bad", "second"]),
         ]
     six = ["nf", "nr", "kf", "kr", "mr", "av"]
-    graph_fams = [(1, 2, 2, six, ["node", "list"]), (1, 3, 3, ["nf", "nr", "kf"], ["node"])]
+    nest = ["ll", "llr", "dl", "ldl", "tu", "nf"]  # container nesting between two instances
+    graph_fams = [(1, 2, 2, six, ["node", "list"]), (1, 3, 3, ["nf", "nr", "kf"], ["node"]), (1, 2, 2, nest, ["node"])]
     if thorough:
-        graph_fams = [(1, 3, 3, six, ["node", "list"]), (3, 3, 4, ["nf", "nr", "kf"], ["node"])]
+        graph_fams = [(1, 3, 3, six, ["node", "list"]), (3, 3, 4, ["nf", "nr", "kf"], ["node"]), (1, 3, 3, nest, ["node", "list"])]
     tasks: dict[str, Callable[[], Any]] = {}
     for i, (ds, as_, ml, extra) in enumerate(mc_fams):
         tasks[f"mc{i}"] = lambda ds=ds, as_=as_, ml=ml, extra=extra, i=i: run_tlc(
@@ -172,6 +174,7 @@ def generate(chk: Check) -> dict[str, Any]:
     ]
     gen_runs.append(("cycle", ["plain"], ["plain"]))
     gen_runs.append(("hier", ["plain"], ["plain"]))
+    gen_runs.append(("where", ["plain"], ["plain"]))
     hier = (["camel", "kw"], ["none", "type"], [False])
     if thorough:
         hier = (["camel", "kw", "plain"], ["none", "type", "default"], [False, True])
@@ -209,7 +212,7 @@ def generate(chk: Check) -> dict[str, Any]:
     chk.cov["defective_design_refuted"] = True
     for i, (fam, ast, pst) in enumerate(gen_runs):
         r = res[f"gen{i}"]
-        lab = f"Gen_Codec[{fam},{'+'.join(ast if fam == 'single' else pst if fam == 'pair' else cyc[2] if fam == 'cycle' else hier[0])},wraps<={wraps}] (Laws)"
+        lab = f"Gen_Codec[{fam},{'+'.join(ast if fam == 'single' else pst if fam == 'pair' else cyc[2] if fam == 'cycle' else hier[0] if fam == 'hier' else ['module', 'nested', 'local'])},wraps<={wraps}] (Laws)"
         chk.add_tlc(lab, r)
         chk.require(r.ok, f"reference codec violates Laws in {lab}")
         sc = r.printed.get("SCEN", [])
